@@ -82,7 +82,16 @@ def observe(text, top=("",), ignore=(), ser=False, module_name="mod", submodules
     try:
         m = parser.Module.parseString(text)
         m = instantiator.instantiate_namespace(m)
-        inst = proj.proj_inst(m)
+        proj.SPELL = []
+        try:
+            inst = proj.proj_inst(m)
+            seen, spell = set(), []
+            for x in proj.SPELL:
+                if x["cpp"] not in seen:
+                    seen.add(x["cpp"])
+                    spell.append(x)
+        finally:
+            proj.SPELL = None
     except proj.ProjectionError:
         raise
     except Exception as e:  # noqa: BLE001
@@ -100,7 +109,7 @@ def observe(text, top=("",), ignore=(), ser=False, module_name="mod", submodules
         return {"outcome": "unscannable", "inst": inst, "detail": str(e), "balanced": proj_py.balanced(body),
                 "text": out}
     sc["events"] = normalise_events(sc["events"])
-    return {"outcome": "ok", "inst": inst, "scan": sc, "text": out}
+    return {"outcome": "ok", "inst": inst, "scan": sc, "text": out, "spell": spell}
 
 
 def validate(batch, timeout=1800):
@@ -108,7 +117,7 @@ def validate(batch, timeout=1800):
     obs = []
     for b in batch:
         obs.append({"id": b["id"], "inst": b["inst"], "opts": b["opts"], "events": b["events"],
-                    "includes": b["includes"], "export": b.get("export", []), "lex": lex_facts(b["inst"])})
+                    "includes": b["includes"], "export": b.get("export", []), "spell": b.get("spell", []), "lex": lex_facts(b["inst"])})
     fd, path = tempfile.mkstemp(prefix="pytrace_", suffix=".json")
     try:
         with os.fdopen(fd, "w") as f:
